@@ -200,7 +200,7 @@ func runC16(c *Ctx) {
 		alg := c16algs[ci]
 		n := refcrypto.OrderSize(cv)
 		key := gen.ECKey(cv, r)
-		for _, form := range []string{"trailing", "extra-element", "long-length"} {
+		for _, form := range []string{"trailing", "extra-element", "long-length", "no-sign-octet", "message-signer-type"} {
 			for i := 0; i < c.N(60, 3000); i++ {
 				rr := new(big.Int).Mod(new(big.Int).SetBytes(r.Bytes(n+2)), cv.Params().N)
 				ss := new(big.Int).Mod(new(big.Int).SetBytes(r.Bytes(n+2)), cv.Params().N)
@@ -214,7 +214,19 @@ func runC16(c *Ctx) {
 					continue
 				}
 				in := map[string]any{"curve": cv.Params().Name, "der_form": form, "r": rr.Text(16), "s": ss.Text(16)}
-				signer, err := cose.NewSigner(alg, &refcrypto.StubECDSASigner{Pub: &key.PublicKey, R: rr, S: ss, Form: form})
+				if form == "no-sign-octet" && i%2 == 0 {
+					// make sure the interesting shape occurs: first octet >= 0x80, also behind a zero octet
+					rr.SetBit(rr, 8*n-1-8*(i%3), 1)
+					rr.Mod(rr, cv.Params().N)
+					if rr.Sign() == 0 {
+						continue
+					}
+				}
+				var ks cryptoSigner = &refcrypto.StubECDSASigner{Pub: &key.PublicKey, R: rr, S: ss, Form: form}
+				if form == "message-signer-type" {
+					ks = &refcrypto.StubECDSAMessageSigner{StubECDSASigner: refcrypto.StubECDSASigner{Pub: &key.PublicKey, R: rr, S: ss}}
+				}
+				signer, err := cose.NewSigner(alg, ks)
 				if err != nil {
 					continue
 				}
